@@ -132,6 +132,7 @@ func (vc *VC) callValue(act *Act, st *State, common *ssa.CallCommon, fnVal Val, 
 		for _, ev := range vc.eng.eventsFor("calldyn", strings.TrimPrefix(name, "dynamic ")) {
 			vc.applyEvent(act, st, pre, ev, args, argTypes, res, resT, site)
 		}
+		vc.siteAssumeAfter(act, st, pre, "calldyn "+strings.TrimPrefix(name, "dynamic "), args, argTypes, res, resT)
 	}
 	return res
 }
@@ -523,6 +524,17 @@ func (vc *VC) builtin(act *Act, st *State, bi *ssa.Builtin, common *ssa.CallComm
 		m := args[0].(MapV)
 		mt := common.Args[0].Type().Underlying().(*types.Map)
 		vc.fireMapEvent(act, st, "mapdelete", common.Args[0], site)
+		// sites see the map (arg0), the key (arg1) and, as recv, the struct the map was loaded from
+		{
+			var recv Val
+			var recvT types.Type
+			if u, ok := common.Args[0].(*ssa.UnOp); ok {
+				if fa, ok := u.X.(*ssa.FieldAddr); ok {
+					recv, recvT = vc.val(act, fa.X), fa.X.Type()
+				}
+			}
+			vc.siteCheck(act, st, "mapdelete "+mapWhatOf(common.Args[0]), site, nil, []Val{args[0], args[1]}, []types.Type{common.Args[0].Type(), common.Args[1].Type()}, recv, recvT)
+		}
 		key := vc.mapKey(st, args[1], mt.Key())
 		w := width(mt.Elem()) + 1
 		base := vc.mapSlot(key, w)
